@@ -50,6 +50,7 @@ fn oracles() -> Vec<(&'static str, Enumerate, Check)> {
         ("c09_mgu", o_mgu::enum_mgu_anon, o_mgu::check_mgu),
         ("c06_keeps", o_unify::enum_keeps, o_unify::check_keeps),
         ("c07_sym", o_mgu::enum_sym, o_mgu::check_sym),
+        ("c08_resolve", o_mgu::enum_resolve, o_mgu::check_resolve),
     ]
 }
 
